@@ -187,13 +187,27 @@ structure TablesOK : Prop where
   univ_not : ∀ u ∈ Generated.universeKinds, u ∈ Generated.notKinds
   univ_any : ∀ u ∈ Generated.universeKinds, u ∈ tableKinds "Any"
   univ_tce : ∀ u ∈ Generated.universeKinds, u ∈ tableKinds "TrulyConstantExpression"
-  self : ∀ u ∈ Generated.universeKinds, u = "BlockStmt" ∨ u = "FieldList" ∨ u ∈ tableKinds u
+  self : ∀ u ∈ Generated.universeKinds, ∀ ks, Generated.nodeKinds.lookup u = some ks → u ∈ ks
   symbol : ∀ k ∈ ["Ident", "SelectorExpr", "IndexExpr", "IndexListExpr"], k ∈ tableKinds "Symbol"
   builtin : "Ident" ∈ tableKinds "Builtin"
   object : "Ident" ∈ tableKinds "Object"
   intlit : "BasicLit" ∈ tableKinds "IntegerLiteral" ∧ "UnaryExpr" ∈ tableKinds "IntegerLiteral"
   list : "BlockStmt" ∈ tableKinds "List" ∧ "FieldList" ∈ tableKinds "List"
   no_empty : "" ∉ Generated.universeKinds
+
+mutual
+/-- The pattern is one Parser.Parse returns: every plain node in root position (below Or and
+Binding) has a row in nodeToASTTypes — for any other node type collectEntryNodes panics
+("internal error: unhandled type") instead of returning a Pattern. -/
+def rootOk : Pat → Bool
+  | .node name _ => (Generated.nodeKinds.lookup name).isSome
+  | .bind _ p => rootOk p
+  | .or ps => rootOkL ps
+  | _ => true
+def rootOkL : List Pat → Bool
+  | [] => true
+  | p :: ps => rootOk p && rootOkL ps
+end
 
 /-- `k` is acceptable for `p`: if it is a kind of the universe, it is an entry kind of `p`. -/
 def Ok (p : Pat) (k : Kind) : Prop := k ∈ Generated.universeKinds → k ∈ entryKinds p
@@ -206,7 +220,7 @@ theorem blockKind_list (T : TablesOK) (fl : Bool) : blockKind fl ∈ tableKinds 
 
 mutual
 theorem entry_node (T : TablesOK) (W : World) (p : Pat) (k : Kind) (o : Option Nat) (fs : List Tree)
-    (σ : State) (r : Tree × State) (hk : k ≠ "BlockStmt" ∧ k ≠ "FieldList")
+    (σ : State) (r : Tree × State) (hk : k ≠ "BlockStmt" ∧ k ≠ "FieldList") (hr : rootOk p = true)
     (h : matchP W p (.node k o fs) σ = some r) : Ok p k := by
   intro hu
   cases p with
@@ -224,11 +238,11 @@ theorem entry_node (T : TablesOK) (W : World) (p : Pat) (k : Kind) (o : Option N
       cases hm : matchP W q (.node k o fs) σ with
       | none => rw [hm] at h; simp at h
       | some r' =>
-        have := entry_node T W q k o fs σ r' hk hm hu
+        have := entry_node T W q k o fs σ r' hk (by simpa [rootOk] using hr) hm hu
         simpa [entryKinds] using this
   | or qs =>
     simp only [matchP] at h
-    have := entry_node_or T W qs k o fs σ r hk h hu
+    have := entry_node_or T W qs k o fs σ r hk (by simpa [rootOk] using hr) h hu
     simpa [entryKinds] using this
   | not q => simpa [entryKinds] using T.univ_all k hu
   | lnil => simp [matchP] at h
@@ -268,26 +282,29 @@ theorem entry_node (T : TablesOK) (W : World) (p : Pat) (k : Kind) (o : Option N
     rw [peel_node] at hp
     injection hp with hkn _ _
     subst hkn
-    rcases T.self k hu with h1 | h1 | h1
-    · exact absurd h1 hk.1
-    · exact absurd h1 hk.2
-    · simpa [entryKinds] using h1
+    simp only [rootOk] at hr
+    cases hl : Generated.nodeKinds.lookup k with
+    | none => rw [hl] at hr; simp at hr
+    | some ks =>
+      have := T.self k hu ks hl
+      simpa [entryKinds, tableKinds, hl] using this
 theorem entry_node_or (T : TablesOK) (W : World) (qs : List Pat) (k : Kind) (o : Option Nat)
     (fs : List Tree) (σ : State) (r : Tree × State) (hk : k ≠ "BlockStmt" ∧ k ≠ "FieldList")
-    (h : matchOr W qs (.node k o fs) σ = some r) : OkL qs k := by
+    (hr : rootOkL qs = true) (h : matchOr W qs (.node k o fs) σ = some r) : OkL qs k := by
   intro hu
   cases qs with
   | nil => simp [matchOr] at h
   | cons q qs =>
     simp only [matchOr] at h
+    simp only [rootOkL, Bool.and_eq_true] at hr
     cases hm : matchP W q (.node k o fs) σ with
     | some r' =>
-      have := entry_node T W q k o fs σ r' hk hm hu
+      have := entry_node T W q k o fs σ r' hk hr.1 hm hu
       simp [entryKindsL, this]
     | none =>
       rw [hm] at h
       simp only at h
-      have := entry_node_or T W qs k o fs σ r hk h hu
+      have := entry_node_or T W qs k o fs σ r hk hr.2 h hu
       simp [entryKindsL, this]
 end
 
@@ -452,15 +469,15 @@ theorem nodeLike_of_isNode : ∀ t : Tree, isNode t = true → WFc t → nodeLik
   | .nil, h, _ => by simp [isNode] at h
 
 /-- entry_complete, by recursion along the wrapper chain -/
-theorem entry_complete_aux (T : TablesOK) (W : World) (p : Pat) (σ : State) :
+theorem entry_complete_aux (T : TablesOK) (W : World) (p : Pat) (hr : rootOk p = true) (σ : State) :
     ∀ t : Tree, WFc t → ∀ r, matchP W p t σ = some r → Ok p (kindOf (norm W p σ t))
   | .node k o fs, hw, r, h => by
     rw [norm_node]
-    exact entry_node T W p k o fs σ r hw h
+    exact entry_node T W p k o fs σ r hw hr h
   | .paren k x, hw, r, h => by
     rw [norm_paren]
     rw [match_paren] at h
-    exact entry_complete_aux T W p σ x hw.2 r h
+    exact entry_complete_aux T W p hr σ x hw.2 r h
   | .block fl [], _, r, h => by
     rw [norm_block_not_single _ _ _ _ _ (by simp)]
     exact entry_block_ns T W p fl [] σ r (by simp) h
@@ -472,7 +489,7 @@ theorem entry_complete_aux (T : TablesOK) (W : World) (p : Pat) (σ : State) :
     by_cases heq : matchP W p y σ = matchP W p (.block fl [y]) σ
     · rw [norm_block_single_eq _ _ _ _ _ heq]
       rw [← heq] at h
-      exact entry_complete_aux T W p σ y hw.2 r h
+      exact entry_complete_aux T W p hr σ y hw.2 r h
     · rw [norm_block_single_ne _ _ _ _ _ heq]
       exact entry_block_single T W p fl y σ (nodeLike_of_isNode y hw.1 hw.2) (fun e => heq e.symm)
   | .list es, _, r, h => by
